@@ -527,6 +527,26 @@ T = "ucglib::tokenizer::"
 NON_CONSUMING = ("peek", "not")
 
 
+def r15p(F):
+    r = RuleResult("R15p", "a float literal is finite",
+                   "parse::triple_to_number builds Value::Float only behind a finiteness test of the parsed number: a literal with more "
+                   "digits than an f64 holds parses to infinity, which the printer can only write as `inf` (+ `.0`): not a literal",
+                   floor=1)
+    fn = F.fn("ucglib::parse::triple_to_number")
+    floats = [b for b, j, pl, rv, m in fn.assigns() if rv["k"] == "agg" and rv.get("adt") == "ucglib::ast::Value" and rv.get("variant") == "Float"]
+    need(floats, "triple_to_number does not build Value::Float")
+    tests = [(b, t) for b, t in fn.calls() if callee(t).split("::")[-1] in ("is_finite", "is_infinite", "is_nan") and "f64" in callee(t)]
+    ok = False
+    for b, t in tests:
+        for sb, ft, tt in util.bool_switches(fn, t["dest"]["l"]):
+            good = tt if callee(t).endswith("is_finite") else ft
+            if all(cfg.dominates(fn, good, fb) for fb in floats):
+                ok = True
+    r.inst("float-literal:finite", fn.where(floats[0]), ok, "only a finite number becomes a float literal" if ok else
+           "a float literal that overflows to infinity is accepted: `1` followed by 309 zeros and `.0` is formatted as `inf.0`, a selector")
+    return r
+
+
 def r16(F):
     r = RuleResult("R16", "a comment can only be consumed as a COMMENT token",
                    "the `comment` recogniser is used in consuming position only by `token` (whose result tokenize routes to the comment "
@@ -1171,4 +1191,4 @@ def r79m(F):
     return r
 
 
-RULES = [r14, r14v, r15, r16, r16m, r17, r17b, r79, r79t, r79m, c02.r8]
+RULES = [r14, r14v, r15, r15p, r16, r16m, r17, r17b, r79, r79t, r79m, c02.r8]
